@@ -7,7 +7,7 @@ ID = 'C18'
 CHECK = {'title': 'Only root-controlled executables are ever run',
  'level': 'exploration',
  'technique': 'exhaustive enumeration of owner x group x permission mode x path kind on real files, real SafeCmdExecution / Validate, '
-              'side-effect marker as execution witness',
+              'side-effect marker as execution witness; process-per-case runs of the real daemon root command and `fan2go fan` sub-commands; concurrent callers in a race-instrumented build',
  'rule': 'run 1 (util): owner {0,1234} x group {0,1234} x all 512 permission modes x {direct path, symlink} = 4096 script files, each through the real '
          'SafeCmdExecution (script creates a marker file); all 1024 ordered pairs of 32 core states (8 modes x owner x group) x {direct, symlink} as '
          '"execute, chown/chmod, execute again"; the same 1024 pairs with a symlink re-pointed between the executions; per core state a path through '
